@@ -23,7 +23,10 @@ EXTENDS Integers, Sequences, FiniteSets, TLC, Json, FiniteSetsExt, SequencesExt,
 CONSTANTS D,        \* number of modes (>= 2)
           NPre,     \* mode size of the modes 1..D-1
           NE,       \* max number of entries (= size of the last mode)
-          EMin, EMax,   \* min / max energy per entry (EMin = 0 admits exactly-zero entries and the zero tensor)
+          EnSet,    \* admissible entry energies (0 admits exactly-zero entries; values >= 1000 stand for "tier 0" entries that are
+                    \* 2^60 times larger than the unit: E = 1000 E0 + E1 orders exactly like the physical E0 + E1 / 2^60 as long as
+                    \* sums of unit-tier energies and budgets stay below 1000)
+          TMax,     \* largest integer budget
           Dirs,     \* subset of {"rtl", "ltr", "rel"}
           Caps,     \* set of caps (99 = no cap)
           Canon     \* TRUE: entries listed in non-decreasing code order (symmetry: permuting the last index)
@@ -66,12 +69,12 @@ RankSelOf(en) == Max2(1, Min2s(cap, NeededRankOf(en)))
 PreTuples == [1..(D-1) -> 0..(NPre-1)]
 RECURSIVE PreCode(_, _)
 PreCode(p, j) == IF j > Len(p) THEN 0 ELSE p[j] + NPre * PreCode(p, j + 1)
-Code(e) == e.en + (EMax + 1) * PreCode(e.pre, 1)
+Code(e) == e.en + 10000 * PreCode(e.pre, 1)
 Init ==
-  /\ \E ne \in 1..NE : ent \in [1..ne -> [pre : PreTuples, en : EMin..EMax]]
+  /\ \E ne \in 1..NE : ent \in [1..ne -> [pre : PreTuples, en : EnSet]]
   /\ (Canon => \A t \in 1..(Len(ent)-1) : Code(ent[t]) <= Code(ent[t+1]))
   /\ dir \in Dirs
-  /\ T \in 0..(NE * EMax)
+  /\ T \in 0..TMax
   /\ (dir = "rel" => (D = 2 /\ T < RelDen))
   /\ (dir # "rel" => T <= Total(ent))
   /\ cap \in Caps
@@ -122,4 +125,8 @@ Emit == Done => PrintT(ToJson([ent |-> ent, T |-> T, cap |-> cap, dir |-> dir, r
                                dropped |-> dropped, live |-> live, tie |-> tie, capHit |-> capHit,
                                N |-> N, d |-> D, npre |-> NPre,
                                minrank |-> [b \in 1..(D-1) |-> Max2(1, MinRankIn(b))]]))
+E12 == {1, 2}
+E123 == {1, 2, 3}
+E01 == {0, 1}
+ETier == {1, 2, 1000, 2000}
 =============================================================================
